@@ -426,6 +426,813 @@ def worker_main():
         out.flush()
 
 
+# =====================================================================================================
+#  pty sessions (one per subprocess): real raw_display.Screen on a pty, any installed event loop
+# =====================================================================================================
+PTY_KEYS = [[1, 97, 0, 0], [1, 98, 0, 0], [2, 1, 3, 2], [1, 99, 0, 0]]      # 'a' (handled) 'b' mouse 'c'
+LOOPS = ["select", "asyncio", "tornado", "trio", "twisted", "zmq"]
+
+
+def make_loop(name, urwid):
+    if name == "select":
+        return urwid.SelectEventLoop()
+    if name == "asyncio":
+        import asyncio
+        return urwid.AsyncioEventLoop(loop=asyncio.new_event_loop())
+    if name == "tornado":
+        return urwid.TornadoEventLoop()
+    if name == "trio":
+        return urwid.TrioEventLoop()
+    if name == "twisted":
+        return urwid.TwistedEventLoop()
+    if name == "zmq":
+        return urwid.ZMQEventLoop()
+    raise ValueError(name)
+
+
+def run_pty(case):
+    """alarm -> keys typed on the pty -> (last callback of the input) pipe write -> alarm -> quit,
+    each step started by the previous one, so the order does not depend on timing"""
+    import fcntl
+    import pty
+    import signal
+    import struct
+    import termios
+    import urwid
+    from urwid.display.raw import Screen
+    S = Session(case)
+    tr = S.trace
+    cfg = case["cfg"]
+    master, slave = pty.openpty()
+    fcntl.ioctl(master, termios.TIOCSWINSZ, struct.pack("HHHH", 5, 20, 0, 0))
+    tty_in = os.fdopen(slave, "rb", buffering=0, closefd=False)
+    tty_out = os.fdopen(slave, "w", closefd=False)
+
+    def app_handler(signum, frame):
+        pass
+    sigs = (signal.SIGWINCH, signal.SIGTSTP, signal.SIGCONT)
+    for s, x in zip(sigs, cfg.get("sig", [0, 0, 0])):
+        signal.signal(s, {0: signal.SIG_DFL, 1: signal.SIG_IGN, 2: app_handler}[x])
+    tios_before = termios.tcgetattr(slave)
+    scr = Screen(input=tty_in, output=tty_out, bracketed_paste_mode=bool(cfg.get("paste")),
+                 focus_reporting=bool(cfg.get("focus")))
+    loop = make_loop(case["loop"], urwid)
+    w = make_widget(S, case["widget"], urwid)
+    keys = case.get("keys", PTY_KEYS)
+    nkeys_seen = [0]
+    pipe_fd = [None]
+
+    def step_after_input():
+        if nkeys_seen[0] >= len(keys) and pipe_fd[0] is not None:
+            fd, pipe_fd[0] = pipe_fd[0], None
+            os.write(fd, b"P")
+
+    def filt(ks, raw):
+        kk = [key_from_py(k) for k in ks]
+        nkeys_seen[0] += len([k for k in kk if k[0] != 0])
+        try:
+            S.cb([T_FILTER, len(kk)] + [x for k in kk for x in k])
+        finally:
+            # the next step of the chain is started by the LAST callback of the input; if nothing
+            # follows the filter (all keys handled) a zero-delay alarm does it
+            if nkeys_seen[0] >= len(keys):
+                ml.set_alarm_in(0, lambda l, d: step_after_input())
+        return ks
+
+    def unh(key):
+        S.cb([T_UNHANDLED] + key_from_py(key))
+        return False
+
+    ml = urwid.MainLoop(w, screen=scr, event_loop=loop, handle_mouse=bool(cfg.get("handle_mouse", True)),
+                        input_filter=filt, unhandled_input=unh, pop_ups=bool(cfg.get("pop_ups")))
+
+    def alarm2(l, d):
+        S.cb([T_ALARM, 2])
+        tr.append([T_QUIT])
+        raise urwid.ExitMainLoop()
+
+    def pcb(data):
+        S.cb([T_PIPE, 1, data[0] if data else -1])
+        ml.set_alarm_in(0.01, alarm2)
+
+    def alarm1(l, d):
+        S.cb([T_ALARM, 1])
+        os.write(master, b"".join(key_bytes(k) for k in keys))
+    pipe_fd[0] = ml.watch_pipe(pcb)
+    ml.set_alarm_in(0.02, alarm1)
+    out = ["ok"]
+    try:
+        ml.run()
+    except UserExc as e:
+        out = ["exc", e.ident, 1 if (S.raised and e is S.raised[-1]) else 0]
+    except BaseException as e:     # noqa: B036
+        out = ["err", type(e).__name__ + ":" + str(e)[:80]]
+    try:
+        tty_out.flush()
+    except Exception as e:         # noqa: BLE001
+        out = ["err", "flush:" + type(e).__name__]
+    os.set_blocking(master, False)
+    data = b""
+    try:
+        while True:
+            ch = os.read(master, 65536)
+            if not ch:
+                break
+            data += ch
+    except (BlockingIOError, OSError):
+        pass
+    try:
+        tios_after = termios.tcgetattr(slave)
+        tios_ok = 1 if tios_after == tios_before else 0
+    except termios.error:
+        tios_ok = -1                 # the descriptor is gone
+    final = [sig_id(signal.getsignal(s), scr, app_handler) for s in sigs]
+    modes = {v: 0 for v in MODES.values()}
+    modes["cursor"] = 1
+    for mo in Recorder.PAT.finditer(data.decode("latin-1")):
+        for num in mo.group(1).split(";"):
+            if num and int(num) in MODES:
+                modes[MODES[int(num)]] = 1 if mo.group(2) == "h" else 0
+    return {"trace": tr, "out": out, "sig": final, "started": bool(scr.started), "ncb": S.n, "term": modes,
+            "tios_ok": tios_ok, "nbytes": len(data)}
+
+
+# =====================================================================================================
+#  the check
+# =====================================================================================================
+def replay_modes(trace):
+    """terminal modes after the writes recorded in a trace, starting from the normal modes"""
+    modes = {v: 0 for v in MODES.values()}
+    modes["cursor"] = 1
+    modes["plain"] = 0
+    for t in trace:
+        if t[0] == T_WRITE and t[1] in MODES:
+            modes[MODES[t[1]]] = t[2]
+        elif t[0] == T_PSTART:
+            modes["plain"] = 1
+        elif t[0] == T_PSTOP:
+            modes["plain"] = 0
+    return modes
+
+
+CB_TAGS = {T_FILTER, T_KEYPRESS, T_MOUSE, T_UNHANDLED, T_ALARM, T_PIPE, T_FILE, T_RENDER}
+ORDER_TAGS = {T_FILTER, T_KEYPRESS, T_MOUSE, T_UNHANDLED, T_ALARM, T_PIPE, T_FILE}
+PYERR = {1: "AttributeError", 2: "RuntimeError"}
+CB_NAMES = {T_FILTER: "input filter", T_KEYPRESS: "widget keypress", T_MOUSE: "widget mouse_event",
+            T_UNHANDLED: "unhandled_input", T_ALARM: "alarm", T_PIPE: "watch_pipe", T_FILE: "watch_file",
+            T_RENDER: "idle redraw / widget render"}
+
+
+def expected_for_keys(cfg, wc, keys):
+    """what the property demands for one batch of input: list of (item, optional) in order"""
+    out = []
+    if cfg.get("filter") is not None:
+        out.append(([T_FILTER, len(keys)] + [x for k in keys for x in k], False))
+        keys = [k for k in keys if not (k[0] == 1 and k[1] in cfg["filter"])]
+    wkeys = {int(k): v for k, v in wc.get("keys", {}).items()}
+    for k in keys:
+        if k[0] == 0:
+            continue
+        handled = False
+        passed = k
+        if k[0] == 1:
+            r = wkeys.get(k[1], k[1])
+            if wc.get("selectable", True):
+                out.append(([T_KEYPRESS, k[1]], False))
+                handled = (r == 0)
+                passed = [1, r, 0, 0]
+            # a widget that is not selectable is not offered keys: it handles nothing
+        else:
+            if wc.get("has_mouse", True):
+                out.append(([T_MOUSE, k[1], k[2], k[3]], False))
+                handled = k[1] in wc.get("mouse", [])
+        if not handled and cfg.get("unhandled") is not None:
+            # 'ctrl l' is bound to REDRAW_SCREEN in the default command map: MainLoop clears the screen
+            # instead of calling the handler; the property text does not mention it: tolerated
+            out.append(([T_UNHANDLED] + passed, passed[0] == 1 and passed[1] == CTRL_L))
+    return out
+
+
+def expected_rounds(case):
+    """per scripted round: the callbacks the property demands, in order"""
+    cfg, wc = case["cfg"], case["widget"]
+    rounds = []
+    if case["kind"] == "hook":
+        rounds.append([([T_ALARM, i], False) for i in cfg.get("pre_alarms", [])])
+        for r in case["rounds"]:
+            exp = []
+            for ev in r:
+                if ev[0] == "in":
+                    exp += expected_for_keys(cfg, wc, ev[1])
+                elif ev[0] == "resize":
+                    exp += expected_for_keys(cfg, wc, [[0, 0, 0, 0]])
+                elif ev[0] == "alarm":
+                    exp.append(([T_ALARM, ev[1]], False))
+                elif ev[0] == "pipe":
+                    exp.append(([T_PIPE, ev[1], ev[2]], False))
+                elif ev[0] == "file":
+                    exp.append(([T_FILE, ev[1]], False))
+            rounds.append(exp)
+    else:
+        pending = list(cfg.get("pre_alarms", []))
+        have_alarm = bool(pending)
+        for b in case["inputs"]:
+            if not b and not have_alarm:
+                continue                    # get_input timed out with nothing to do: the loop keeps waiting
+            exp = []
+            if b or cfg.get("filter") is None:
+                exp += expected_for_keys(cfg, wc, b)
+            else:
+                # an empty batch is still shown to the input filter by _run_screen_event_loop
+                exp.append(([T_FILTER, 0], True))
+            exp += [([T_ALARM, i], False) for i in pending]
+            pending = []
+            have_alarm = False
+            rounds.append(exp)
+    return rounds
+
+
+class C12(core.Check):
+    pid = "C12"
+    gen_modules = []
+    model_targets = ["theories/Model/MainLoop.vo"]
+    prop_file = "theories/Properties/C12.v"
+    extract_v = "Extract/C12X.v"
+    allowed_axioms = set()
+    level = "proof"
+    design_ref = "DESIGN.md section 5, C12"
+    correspondence_name = "extracted MainLoop model vs real MainLoop + SelectEventLoop on an instrumented screen"
+    search_budget = {"quick": 60, "thorough": 300}
+
+    WORKER_TIMEOUT = 15
+    PTY_TIMEOUT = 25
+
+    def __init__(self):
+        core.Check.__init__(self)
+        self._w = None
+        self._prefetched = {}
+
+    # ---------- worker ----------
+    def _env(self):
+        e = dict(os.environ)
+        e["PYTHONPATH"] = core.REPO + os.pathsep + core.ROOT
+        e["PYTHONHASHSEED"] = "0"
+        e["PYTHONDONTWRITEBYTECODE"] = "1"
+        e["TERM"] = "xterm"
+        return e
+
+    def _worker(self):
+        if self._w is None or self._w.poll() is not None:
+            self._w = subprocess.Popen([core.PY, "-m", "harness.props.c12", "--worker"], stdin=subprocess.PIPE,
+                                       stdout=subprocess.PIPE, stderr=subprocess.DEVNULL, cwd=core.ROOT,
+                                       env=self._env(), text=True, bufsize=1)
+        return self._w
+
+    def _kill_worker(self):
+        if self._w is not None:
+            try:
+                self._w.kill()
+                self._w.wait(timeout=5)
+            except Exception:      # noqa: BLE001
+                pass
+            self._w = None
+
+    def _ask_worker(self, case):
+        w = self._worker()
+        try:
+            w.stdin.write(json.dumps(case) + "\n")
+            w.stdin.flush()
+        except (BrokenPipeError, OSError):
+            self._kill_worker()
+            return {"hang": "worker died before the session"}
+        r, _, _ = _select.select([w.stdout], [], [], self.WORKER_TIMEOUT)
+        if not r:
+            self._kill_worker()
+            return {"hang": "no result within %ds" % self.WORKER_TIMEOUT}
+        line = w.stdout.readline()
+        if not line:
+            self._kill_worker()
+            return {"hang": "worker died during the session"}
+        return json.loads(line)
+
+    def _pty_popen(self, case):
+        return subprocess.Popen([core.PY, "-m", "harness.props.c12", "--pty", json.dumps(case)], stdin=subprocess.DEVNULL,
+                                stdout=subprocess.PIPE, stderr=subprocess.PIPE, cwd=core.ROOT, env=self._env(), text=True,
+                                start_new_session=True)
+
+    def _pty_collect(self, proc):
+        try:
+            out, err = proc.communicate(timeout=self.PTY_TIMEOUT)
+        except subprocess.TimeoutExpired:
+            try:
+                os.killpg(proc.pid, 9)
+            except OSError:
+                proc.kill()
+            proc.communicate()
+            return {"hang": "no result within %ds" % self.PTY_TIMEOUT}
+        for line in reversed(out.strip().split("\n")):
+            if line.startswith("{"):
+                return json.loads(line)
+        return {"hang": "session process died: rc=%s %s" % (proc.returncode, err.strip()[-200:])}
+
+    # ---------- implementation ----------
+    def run_impl(self, case):
+        if case["kind"] == "pty":
+            key = core.canon(case)
+            proc = self._prefetched.pop(key, None) or self._pty_popen(case)
+            return self._pty_collect(proc)
+        res = self._ask_worker(case)
+        if "hang" in res or "harness_error" in res:
+            return res
+        tr = res["trace"]
+        return {"out": res["out"], "started": res["started"], "ncb": res["ncb"],
+                "sig": res["sig"] if case["kind"] == "hook" else list(case["cfg"].get("sig", [0, 0, 0])),
+                "term": replay_modes(tr), "trace": tr}
+
+    # ---------- model wire format ----------
+    def encode(self, case):
+        if case["kind"] == "pty":
+            return None
+        cfg, wc = case["cfg"], case["widget"]
+        b = lambda x: 1 if x else 0      # noqa: E731
+        l = [b(case["kind"] == "hook")]
+        l += [0] if cfg.get("filter") is None else [1, len(cfg["filter"])] + list(cfg["filter"])
+        l += [0, 0] if cfg.get("unhandled") is None else [1, b(cfg["unhandled"])]
+        l += [b(cfg.get("handle_mouse", True)), b(cfg.get("pop_ups")), b(cfg.get("paste")), b(cfg.get("focus")), 0,
+              b(cfg.get("prestarted"))]
+        pre = cfg.get("pre_alarms", [])
+        l += [len(pre)] + list(pre)
+        l += [b(wc.get("selectable", True)), b(wc.get("has_mouse", True))]
+        wk = sorted((int(k), v) for k, v in wc.get("keys", {}).items())
+        l += [len(wk)] + [x for kv in wk for x in kv]
+        l += [len(wc.get("mouse", []))] + list(wc.get("mouse", []))
+        l += [b(wc.get("cursor"))]
+        l += list(cfg.get("sig", [0, 0, 0]))
+        plan = sorted((int(k), v) for k, v in case.get("plan", {}).items())
+        l += [len(plan)] + [x for kv in plan for x in kv]
+        if case["kind"] == "hook":
+            l.append(len(case["rounds"]))
+            for r in case["rounds"]:
+                l.append(len(r))
+                for ev in r:
+                    if ev[0] == "in":
+                        l += [1, len(ev[1])] + [x for k in ev[1] for x in k]
+                    elif ev[0] == "resize":
+                        l.append(2)
+                    elif ev[0] == "alarm":
+                        l += [3, ev[1]]
+                    elif ev[0] == "pipe":
+                        l += [4, ev[1], ev[2]]
+                    elif ev[0] == "file":
+                        l += [5, ev[1]]
+        else:
+            l.append(len(case["inputs"]))
+            for bt in case["inputs"]:
+                l += [len(bt)] + [x for k in bt for x in k]
+        return l
+
+    def decode(self, case, ints):
+        try:
+            it = iter(ints)
+            kind, val = next(it), next(it)
+            if kind == 0:
+                out = ["ok"]
+            elif kind == 1:
+                out = ["exc", val, 1]
+            elif kind == 2:
+                out = ["err", PYERR.get(val, "?")]
+            else:
+                out = ["err", "model-outcome-%d" % kind]
+            started = bool(next(it))
+            ncb = next(it)
+            sig = [next(it), next(it), next(it)]
+            names = ["alt", "cursor", "mouse", "mouse2", "mouse6", "paste", "focus", "cbreak", "plain"]
+            term = {k: next(it) for k in names}
+            del term["cbreak"]
+            ntr = next(it)
+            trace = []
+            for _ in range(ntr):
+                ln = next(it)
+                trace.append([next(it) for _ in range(ln)])
+        except StopIteration:
+            return {"malformed": ints[:60]}
+        return {"out": out, "started": started, "ncb": ncb, "sig": sig, "term": term, "trace": trace}
+
+    # ---------- oracle (written from the property text; does not use the model) ----------
+    def oracle(self, case, res):
+        if "hang" in res:
+            return ["the session did not terminate: " + str(res["hang"])]
+        if "harness_error" in res:
+            return ["the session could not be set up or torn down: " + res["harness_error"]]
+        if "malformed" in res:
+            return []
+        msgs = []
+        cfg, wc = case["cfg"], case["widget"]
+        if cfg.get("pop_ups") and not wc.get("has_mouse", True):
+            return []          # PopUpTarget around a non-Widget: observation only (see distribution)
+        tr = res["trace"]
+        plan = {int(k): v for k, v in case.get("plan", {}).items()}
+        ncb = res["ncb"]
+        fired = sorted(i for i in plan if i < ncb)
+        # --- outcome of run() ---
+        if fired:
+            i = fired[0]
+            cbs = [t for t in tr if t[0] in CB_TAGS]
+            where = CB_NAMES.get(cbs[i][0], "?") if i < len(cbs) else "?"
+            if i != ncb - 1 and case["kind"] != "pty":
+                # (on the other event loops a pending idle redraw may still run while the loop winds down:
+                #  not judged, counted in the distribution)
+                msgs.append(f"callback invocation #{i} ({where}) raised but {ncb - 1 - i} more callback(s) were invoked afterwards")
+            ran_on = any(t[0] == T_QUIT for t in tr)
+            if plan[i] == 0:
+                if res["out"] != ["ok"]:
+                    msgs.append(f"ExitMainLoop raised in callback #{i} ({where}): run() did not return normally: {res['out']}")
+                elif ran_on:
+                    msgs.append(f"ExitMainLoop raised in callback #{i} ({where}) did not end run(): the loop kept running "
+                                f"to the end of the scripted session")
+            elif res["out"][:2] != ["exc", plan[i]]:
+                msgs.append(f"exception {plan[i]} raised in callback #{i} ({where}): what left run() is {res['out']}"
+                            + (" and the loop kept running to the end of the scripted session" if ran_on else ""))
+            elif res["out"][2] != 1:
+                msgs.append(f"exception {plan[i]} raised in callback #{i} ({where}): a different exception object left run()")
+        else:
+            if res["out"] != ["ok"]:
+                msgs.append(f"no callback raised, the session was ended with ExitMainLoop: run() gave {res['out']}")
+        # --- the display is stopped and the terminal is back in its initial modes ---
+        if res["started"]:
+            msgs.append("screen.started is still True after run()")
+        bad = [k for k, v in sorted(res["term"].items()) if v != (1 if k == "cursor" else 0)]
+        if bad:
+            msgs.append("terminal modes not restored after run(): " + ",".join(bad))
+        if case["kind"] != "plain" and res["sig"] != list(cfg.get("sig", [0, 0, 0])):
+            names = ["SIGWINCH", "SIGTSTP", "SIGCONT"]
+            diff = [f"{names[j]}: {cfg.get('sig', [0, 0, 0])[j]}->{res['sig'][j]}" for j in range(3)
+                    if res["sig"][j] != cfg.get("sig", [0, 0, 0])[j]]
+            msgs.append("signal handlers not restored after run(): " + ", ".join(diff))
+        if case["kind"] == "pty":
+            if res.get("tios_ok") != 1:
+                msgs.append("tty settings (termios) differ after run()" if res.get("tios_ok") == 0
+                            else "the terminal descriptor is no longer usable after run()")
+            msgs += self.order_pty(case, res)
+            return msgs
+        # --- order of the callbacks, redraw before the loop next waits ---
+        msgs += self.order(case, res, bool(fired))
+        return msgs
+
+    def order(self, case, res, faulted):
+        msgs = []
+        tr = res["trace"]
+        rounds = expected_rounds(case)
+        pos = 0                     # position in the trace
+        last_cb_pos = None          # where the previous round with callbacks ended
+
+        def drawn_between(a, b):
+            seen_render = False
+            for t in tr[a:b]:
+                if t[0] == T_RENDER:
+                    seen_render = True
+                elif t[0] == T_DRAW and seen_render:
+                    return True
+            return False
+        complete = True
+        for ri, exp in enumerate(rounds):
+            first = True
+            for item, optional in exp:
+                # next order-relevant item of the trace
+                q = pos
+                while q < len(tr) and tr[q][0] not in ORDER_TAGS:
+                    q += 1
+                if q == len(tr):
+                    if optional:
+                        continue
+                    complete = False
+                    break
+                if tr[q] != item:
+                    if optional:
+                        continue
+                    msgs.append(f"round {ri}: expected callback {item} next, the trace has {tr[q]}")
+                    return msgs
+                if first and last_cb_pos is not None and not drawn_between(last_cb_pos, q):
+                    msgs.append(f"round {ri}: no redraw (render then screen.draw_screen) between the input of the "
+                                f"previous round and this one")
+                first = False
+                pos = q + 1
+                last_cb_pos = pos
+            if not complete:
+                break
+        q = pos
+        while q < len(tr) and tr[q][0] not in ORDER_TAGS:
+            q += 1
+        if q < len(tr):
+            msgs.append(f"unexpected extra callback {tr[q]} after the scripted input was consumed")
+        quit_pos = next((i for i, t in enumerate(tr) if t[0] == T_QUIT), None)
+        if not faulted:
+            if not complete:
+                msgs.append("the session ended although scripted input was not delivered")
+            elif quit_pos is None:
+                msgs.append("the session ended without the harness's final ExitMainLoop")
+            elif last_cb_pos is not None and not drawn_between(last_cb_pos, quit_pos):
+                msgs.append("no redraw between the last input and the loop's next wait")
+        elif not complete and quit_pos is not None:
+            msgs.append("scripted input was skipped")
+        return msgs
+
+    def order_pty(self, case, res):
+        """batching over a pty is the kernel's business: check per batch, keys in arrival order"""
+        msgs = []
+        cfg, wc = case["cfg"], case["widget"]
+        keys = case.get("keys", PTY_KEYS)
+        tr = [t for t in res["trace"] if t[0] in ORDER_TAGS]
+        cfg2 = dict(cfg, filter=[], unhandled=0)
+        seen = 0
+        i = 0
+        while i < len(tr):
+            t = tr[i]
+            if t[0] == T_FILTER:
+                batch = [t[2 + 4 * j: 6 + 4 * j] for j in range(t[1])]
+                real = [k for k in batch if k[0] != 0]
+                if real != keys[seen: seen + len(real)]:
+                    msgs.append(f"input not in arrival order: got {real} after {seen} keys of {keys}")
+                    return msgs
+                seen += len(real)
+                exp = expected_for_keys(cfg2, wc, batch)
+                for item, optional in exp:
+                    if i < len(tr) and tr[i] == item:
+                        i += 1
+                    elif i >= len(tr):
+                        break           # cut by a fault
+                    elif not optional:
+                        msgs.append(f"expected callback {item}, the trace has {tr[i]}")
+                        return msgs
+            else:
+                i += 1
+        if res["out"] == ["ok"] and any(t[0] == T_QUIT for t in res["trace"]) and seen != len(keys):
+            msgs.append(f"only {seen} of {len(keys)} typed keys were delivered before the session ended")
+        return msgs
+
+    def nontrivial(self, case, res):
+        return isinstance(res, dict) and res.get("ncb", 0) > 0
+
+    def signature(self, case, msg):
+        return case["kind"] + ":" + re.sub(r"\d+", "N", msg)[:90]
+
+    def distribution(self, case, res, dist):
+        def inc(k):
+            dist[k] = dist.get(k, 0) + 1
+        inc("kind:" + case["kind"])
+        if case["kind"] == "pty":
+            inc("loop:" + case["loop"])
+        if "out" in res:
+            inc("outcome:" + res["out"][0])
+        else:
+            inc("outcome:hang")
+        plan = case.get("plan", {})
+        if not plan:
+            inc("fault:none")
+        for k, v in plan.items():
+            if int(k) < res.get("ncb", 0):
+                inc("fault_fired:" + ("exit" if v == 0 else "raise"))
+                tr = [t for t in res.get("trace", []) if t[0] in CB_TAGS]
+                if int(k) < len(tr):
+                    inc("fault_at:" + {T_FILTER: "filter", T_KEYPRESS: "keypress", T_MOUSE: "mouse", T_UNHANDLED: "unhandled",
+                                       T_ALARM: "alarm", T_PIPE: "pipe", T_FILE: "file", T_RENDER: "render"}[tr[int(k)][0]])
+        cfg = case["cfg"]
+        for f in ("pop_ups", "prestarted", "paste", "focus"):
+            if cfg.get(f):
+                inc("cfg:" + f)
+        fired = [int(k) for k in plan if int(k) < res.get("ncb", 0)]
+        if case["kind"] == "pty" and fired and min(fired) != res.get("ncb", 0) - 1:
+            inc("obs:callbacks_after_the_fault:" + case["loop"])
+        if cfg.get("pop_ups") and not case["widget"].get("has_mouse", True):
+            inc("obs:pop_ups_around_widget_without_mouse_event")
+        # observation, not demanded by the property text: after an exception other than ExitMainLoop
+        # MainLoop.stop() is not called: the idle handle and the input watches stay registered
+        if res.get("out", ["ok"])[0] == "exc" and case["kind"] == "hook":
+            inc("obs:error_path_leaves_event_loop_hooks_registered")
+
+    # ---------- generators ----------
+    WIDGETS = [
+        {"selectable": True, "has_mouse": True, "keys": {"97": 0, "98": 12, "100": 101}, "mouse": [1], "cursor": True},
+        {"selectable": True, "has_mouse": True, "keys": {"97": 0}, "mouse": [], "cursor": False},
+        {"selectable": False, "has_mouse": True, "keys": {}, "mouse": [1, 2], "cursor": False},
+    ]
+    DUCK = {"selectable": True, "has_mouse": False, "keys": {"97": 0}, "mouse": [], "cursor": False}
+
+    def ncb_estimate(self, case):
+        """upper bound of the number of callback invocations of the fault-free session"""
+        n = sum(len(r) for r in expected_rounds(case))
+        pu = 2 if case["cfg"].get("pop_ups") else 1
+        if case["kind"] == "hook":
+            n = n * pu + (2 + len(case["rounds"])) * pu
+        else:
+            n = n * pu + (1 + len(case["inputs"])) * pu
+        return n + 1
+
+    def with_faults(self, base, kinds=(0, 7), step=1):
+        yield dict(base, plan={})
+        for i in range(0, self.ncb_estimate(base), step):
+            for f in kinds:
+                yield dict(base, plan={str(i): f})
+
+    def base_hook_cases(self):
+        K = lambda c: [1, c, 0, 0]      # noqa: E731,N806
+        M = lambda b: [2, b, 3, 2]      # noqa: E731,N806
+        scripts = [
+            [[["in", [K(97), K(98), K(99)]]], [["alarm", 5]], [["pipe", 1, 65]], [["file", 2]]],
+            [[["in", [K(99), M(1), M(2), K(100)]], ["alarm", 5]], [["resize"]], [["in", [K(12)]]]],
+            [[["pipe", 1, 66], ["alarm", 6], ["alarm", 7]], [["in", [K(97)]]]],
+        ]
+        cfgs = [
+            {"filter": [], "unhandled": 0, "handle_mouse": True, "pop_ups": False, "paste": False, "focus": False},
+            {"filter": None, "unhandled": None, "handle_mouse": False, "pop_ups": False, "paste": True, "focus": True},
+            {"filter": [99], "unhandled": 1, "handle_mouse": True, "pop_ups": True, "paste": True, "focus": False,
+             "pre_alarms": [3]},
+            {"filter": [97, 98, 99, 100, 12], "unhandled": 1, "handle_mouse": True, "pop_ups": False, "prestarted": True,
+             "sig": [2, 1, 0]},
+        ]
+        for s in scripts:
+            for ci, cfg in enumerate(cfgs):
+                for wi, w in enumerate(self.WIDGETS):
+                    yield {"kind": "hook", "cfg": dict(cfg), "widget": w, "rounds": s}
+
+    def base_plain_cases(self):
+        K = lambda c: [1, c, 0, 0]      # noqa: E731,N806
+        M = lambda b: [2, b, 3, 2]      # noqa: E731,N806
+        scripts = [
+            [[K(97), K(98)], [], [K(99), M(1)], [[0, 0, 0, 0], M(2)]],
+            [[], [], [K(100), [0, 0, 0, 0]], [K(12)]],
+        ]
+        cfgs = [
+            {"filter": [], "unhandled": 0, "handle_mouse": True, "pop_ups": False, "pre_alarms": [4, 5]},
+            {"filter": None, "unhandled": None, "handle_mouse": False, "pop_ups": True},
+            {"filter": [100, 99], "unhandled": 1, "handle_mouse": True, "pop_ups": False, "pre_alarms": [9], "prestarted": True},
+        ]
+        for s in scripts:
+            for cfg in cfgs:
+                for w in self.WIDGETS[:2]:
+                    yield {"kind": "plain", "cfg": dict(cfg), "widget": w, "inputs": s}
+
+    def random_case(self, rng, kind=None):
+        kind = kind or rng.choice(["hook", "hook", "plain"])
+        codes = [97, 98, 99, 100, 101, 12]
+
+        def rkey():
+            x = rng.random()
+            if x < 0.7:
+                return [1, rng.choice(codes), 0, 0]
+            return [2, rng.choice([1, 2, 3]), rng.randrange(0, 20), rng.randrange(0, 5)]
+        cfg = {"filter": rng.choice([None, [], [rng.choice(codes)], rng.sample(codes, 3)]),
+               "unhandled": rng.choice([None, 0, 1]), "handle_mouse": rng.random() < 0.7, "pop_ups": rng.random() < 0.3,
+               "paste": rng.random() < 0.4, "focus": rng.random() < 0.4, "prestarted": rng.random() < 0.2,
+               "pre_alarms": [rng.randrange(1, 9) for _ in range(rng.choice([0, 0, 1, 2]))],
+               "sig": [rng.choice([0, 0, 1, 2]), rng.choice([0, 0, 1, 2]), rng.choice([0, 0, 0, 0, 1, 2])]}
+        wc = {"selectable": rng.random() < 0.8, "has_mouse": True,
+              "keys": {str(cd): rng.choice([0, 0, cd, rng.choice(codes)]) for cd in rng.sample(codes, rng.randrange(0, 4))},
+              "mouse": rng.sample([1, 2, 3], rng.randrange(0, 3)), "cursor": rng.random() < 0.5}
+        if not cfg["pop_ups"] and rng.random() < 0.1:
+            wc["has_mouse"] = False
+        if kind == "hook":
+            rounds = []
+            for _ in range(rng.randrange(1, 5)):
+                r = []
+                x = rng.random()
+                if x < 0.5:
+                    r.append(["in", [rkey() for _ in range(rng.randrange(1, 5))]])
+                elif x < 0.6:
+                    r.append(["resize"])
+                elif x < 0.75:
+                    r.append(["pipe", rng.choice([1, 2]), rng.randrange(65, 70)])
+                elif x < 0.85:
+                    r.append(["file", rng.choice([1, 2])])
+                for _ in range(rng.choice([0, 0, 1, 2]) if r else rng.choice([1, 2])):
+                    r.append(["alarm", rng.randrange(1, 9)])
+                rounds.append(r)
+            case = {"kind": "hook", "cfg": cfg, "widget": wc, "rounds": rounds}
+        else:
+            cfg.pop("sig")
+            cfg.pop("paste")
+            cfg.pop("focus")
+            inputs = []
+            for _ in range(rng.randrange(1, 6)):
+                if rng.random() < 0.25:
+                    inputs.append([])
+                else:
+                    b = [rkey() for _ in range(rng.randrange(1, 4))]
+                    if rng.random() < 0.2:
+                        b.insert(rng.randrange(0, len(b) + 1), [0, 0, 0, 0])
+                    inputs.append(b)
+            case = {"kind": "plain", "cfg": cfg, "widget": wc, "inputs": inputs}
+        n = self.ncb_estimate(case)
+        x = rng.random()
+        if x < 0.15:
+            case["plan"] = {}
+        elif x < 0.85:
+            case["plan"] = {str(rng.randrange(0, n)): rng.choice([0, rng.randrange(1, 50)])}
+        else:
+            i, j = rng.randrange(0, n), rng.randrange(0, n)
+            case["plan"] = {str(i): rng.choice([0, 5]), str(j): rng.choice([0, 6])}
+        return case
+
+    def pty_cases(self, tier):
+        loops = []
+        for name in LOOPS:
+            try:
+                if name == "tornado":
+                    __import__("tornado")
+                elif name == "trio":
+                    __import__("trio")
+                elif name == "twisted":
+                    __import__("twisted")
+                elif name == "zmq":
+                    __import__("zmq")
+                loops.append(name)
+            except ImportError:
+                pass
+        w = {"selectable": True, "has_mouse": True, "keys": {"97": 0}, "mouse": [], "cursor": True}
+        cfgs = [{"handle_mouse": True, "pop_ups": False, "paste": True, "focus": True, "sig": [0, 0, 0]}]
+        if tier == "thorough":
+            cfgs.append({"handle_mouse": False, "pop_ups": True, "paste": False, "focus": False, "sig": [2, 2, 0]})
+        for cfg in cfgs:
+            for name in loops:
+                base = {"kind": "pty", "loop": name, "cfg": cfg, "widget": w}
+                yield dict(base, plan={})
+                nmax = 22 if cfg.get("pop_ups") else 16
+                step = 1 if (tier == "thorough" or name in ("select", "asyncio")) else 2
+                for i in range(0, nmax, step):
+                    for f in ((0, 7) if (tier == "thorough" or i % 2 == 0) else (7,)):
+                        yield dict(base, plan={str(i): f})
+
+    def prefetching(self, gen, width=8):
+        """run pty sessions `width` at a time; run_impl collects them in order"""
+        window = []
+        for case in gen:
+            self._prefetched[core.canon(case)] = self._pty_popen(case)
+            window.append(case)
+            if len(window) >= width:
+                yield window.pop(0)
+        while window:
+            yield window.pop(0)
+
+    def cases(self, rng, tier):
+        for base in self.base_hook_cases():
+            yield from self.with_faults(base, step=1 if tier == "thorough" else 1)
+        for base in self.base_plain_cases():
+            yield from self.with_faults(base)
+        for base in ({"kind": "hook", "cfg": {"filter": [], "unhandled": 0, "pop_ups": False}, "widget": self.DUCK,
+                      "rounds": [[["in", [[1, 98, 0, 0], [2, 1, 1, 1]]]]]},):
+            yield from self.with_faults(base)
+        for _ in range(1500 if tier == "quick" else 20000):
+            yield self.random_case(rng)
+        yield from self.prefetching(self.pty_cases(tier))
+
+    def search_cases(self, rng, tier):
+        while True:
+            yield self.random_case(rng)
+
+    def shrink_candidates(self, case):
+        if case["kind"] == "hook":
+            rs = case["rounds"]
+            for i in range(len(rs)):
+                if len(rs) > 1:
+                    yield dict(case, rounds=rs[:i] + rs[i + 1:])
+                for j in range(len(rs[i])):
+                    if len(rs[i]) > 1:
+                        yield dict(case, rounds=rs[:i] + [rs[i][:j] + rs[i][j + 1:]] + rs[i + 1:])
+                    ev = rs[i][j]
+                    if ev[0] == "in" and len(ev[1]) > 1:
+                        for k in range(len(ev[1])):
+                            yield dict(case, rounds=rs[:i] + [rs[i][:j] + [["in", ev[1][:k] + ev[1][k + 1:]]] + rs[i][j + 1:]] + rs[i + 1:])
+        elif case["kind"] == "plain":
+            ins = case["inputs"]
+            for i in range(len(ins)):
+                if len(ins) > 1:
+                    yield dict(case, inputs=ins[:i] + ins[i + 1:])
+        plan = case.get("plan", {})
+        for k in plan:
+            yield dict(case, plan={a: b for a, b in plan.items() if a != k})
+            if int(k) > 0:
+                yield dict(case, plan={(str(int(a) - 1) if a == k else a): b for a, b in plan.items()})
+        cfg = case["cfg"]
+        for f in ("pop_ups", "prestarted", "paste", "focus"):
+            if cfg.get(f):
+                yield dict(case, cfg=dict(cfg, **{f: False}))
+        if cfg.get("pre_alarms"):
+            yield dict(case, cfg=dict(cfg, pre_alarms=[]))
+        if cfg.get("sig") and cfg["sig"] != [0, 0, 0]:
+            for j in range(3):
+                if cfg["sig"][j]:
+                    s2 = list(cfg["sig"])
+                    s2[j] = 0
+                    yield dict(case, cfg=dict(cfg, sig=s2))
+
+
+CHECK = C12
+
+
 if __name__ == "__main__":
     if len(sys.argv) > 1 and sys.argv[1] == "--worker":
         worker_main()
+    elif len(sys.argv) > 2 and sys.argv[1] == "--pty":
+        print(json.dumps(run_pty(json.loads(sys.argv[2]))))
+        sys.stdout.flush()
+        os._exit(0)
